@@ -52,8 +52,12 @@ def run_case(case):
     o = dict(GridSize=n, StepsPerTs=steps, DampingTime=td, rotations=periods, outstep=max(1, int(periods * steps / nrec)),
              VacuumGap=0.0, InitialDistZoom=z, InterpolationPoints=case["it"], derivation=case["deriv"], FPType=fpt,
              RenormalizeCharge=case["renorm"])
+    if case.get("via_rev"):
+        # the documented second route to the step count: StepsPerRevolution overwrites StepsPerTs (which carries a decoy)
+        o["StepsPerRevolution"] = float(steps * d0["fs"] / d0["frev"])
+        o["StepsPerTs"] = int(case["via_rev"])
     h, msg = run_one(o, wd, "r.h5")
-    cls = ["fpt%d" % fpt, "d%d" % case["deriv"], "it%d" % case["it"], "n%d" % n,
+    cls = (["steps_per_revolution"] if case.get("via_rev") else []) + ["fpt%d" % fpt, "d%d" % case["deriv"], "it%d" % case["it"], "n%d" % n,
            "zoom<0.3" if z < 0.3 else ("zoom<0.75" if z < 0.75 else ("zoom>1.25" if z > 1.25 else "zoom~1"))]
     if h is None:
         return Outcome(False, True, cls, msg, sig="c04:runfail")
@@ -143,6 +147,8 @@ def cases(draw, fast=True):
               gen.f32(draw(st.one_of(st.floats(0.1, 0.4), st.floats(0.4, 0.75), st.floats(1.25, 2.0)))))
     c = dict(n=n, steps=steps, e1=e1, zoom=z, fptype=fpt, it=draw(st.sampled_from([3, 4, 4])), deriv=draw(st.sampled_from([3, 4])),
              renorm=draw(st.sampled_from([-1, 0, 0, 50])), K=5.0)
+    if draw(st.integers(0, 5)) == 0:
+        c["via_rev"] = draw(st.sampled_from([10, 100, 1000, 3000]))
     if fpt == 3 and draw(st.integers(0, 3)) == 0:
         c["zoom2"] = float(draw(st.sampled_from([0.6, 1.0, 1.7])))
     # the distribution has to stay inside the grid (+-6 natural units): wide starts only where damping shrinks them
